@@ -197,6 +197,40 @@ def campaign(c):
             if int.from_bytes(b[n:n + 2], 'big') != num(want[tn]) or int.from_bytes(b[n + 2:n + 4], 'big') != num(want[cn]):
                 c.violation('bind:designation:' + f['path'], '%s: TYPE/CLASS on the wire are %d/%d, designated %s/%s' % (f['path'], int.from_bytes(b[n:n + 2], 'big'), int.from_bytes(b[n + 2:n + 4], 'big'), want[tn], want[cn]), dict(func=f['path'], req=req))
         c.case(('designation', f['path']), None)
+    # designated values are visible whatever the OTHER options are: the sequence-number overrides of the TCP methods (`seq:`, `ack:`)
+    # appear as the two 32-bit numbers of the segment's header under every combination of the method's remaining options,
+    # given in any order
+    import struct
+    from .. import progdiff
+    S, A = 0x01020304, 0x0a0b0c0d
+    for m in lib.methods.get('ipv4::tcp::TcpFlow', []):
+        names = [a['name'] for a in m['args']]
+        if 'seq' not in names or 'ack' not in names: continue
+        mn = m['path'].split('.')[1]
+        others = [[]]
+        for a in m['args']:
+            if a['name'] in ('seq', 'ack'): continue
+            t = decl_type(a)[0]
+            vals = ['true', 'false'] if t == 'Bool' else ['0', '5'] if t in ('U8', 'U16', 'U32', 'U64') else []
+            if vals: others = [o + [x] for o in others for x in [None] + ['%s: %s' % (a['name'], v) for v in vals]]
+        for o in others:
+            o = [x for x in o if x]
+            for tail in ([''] + ([', "hello"', ', ""'] if m['collect_type'] != 'Void' else [])):
+                for order in (['seq: %d' % S, 'ack: %d' % A] + o, o + ['ack: %d' % A, 'seq: %d' % S], ['ack: %d' % A] + o + ['seq: %d' % S]):
+                    src = 'import ipv4;\nimport eth;\nlet f = ipv4::tcp::flow(1.2.3.4:5, 6.7.8.9:80);\nlet r = f.%s(%s%s);\n' % (mn, ', '.join(order), tail)
+                    if m['return_type'] == 'Str': src += 'eth::frame("|000000000001|", "|000000000002|", r);\n'; off = 14
+                    else: src += 'r;\n'; off = 34
+                    impl, model = progdiff.run_both(c, src.encode())
+                    progdiff.compare(c, src.encode(), impl, model, 'designation-visible', times=False)
+                    recs = progdiff.pcap_records(impl['file'] or b'')
+                    if impl['outcome'][0] != 'success' or not recs:
+                        c.violation('bind:designation:' + m['path'], 'a call with documented options is not accepted: %s' % (impl['outcome'][:3],), dict(func=m['path'], src=src))
+                    else:
+                        sq, ak = struct.unpack('>II', recs[0][1][off + 4:off + 12])
+                        if {sq, ak} != {S, A}:
+                            c.violation('bind:designation:' + m['path'], 'the values designated for `seq` and `ack` (%#x, %#x) are not the numbers in the segment header (%#x, %#x) when the call also says (%s)' % (S, A, sq, ak, ', '.join(o)), dict(func=m['path'], src=src))
+                    c.traces_validated += 1
+        c.case(('designation-visible', m['path']), dict(kind='designation-visible', method=m['path'], contexts=len(others)))
     c.extra['exhaustive_space'] = 'all %d signatures x call shapes of length <= %d over (5 name choices x 3 values)' % (len(lib.funcs), L)
     m = 3000 if c.quick else 100000
     for i in range(m):
